@@ -21,6 +21,7 @@ func c11Check(c *core.Ctx, oracle string, docs []any) {
 	outs, err := evalStream(docs)
 	wit := core.Canon(docs)
 	var want []any
+	var perDoc []int
 	nested := false
 	for _, d := range docs {
 		r := ref.Outputs(ref.DropNulls(d))
@@ -41,6 +42,7 @@ func c11Check(c *core.Ctx, oracle string, docs []any) {
 		}
 		nested = nested || r.NestedSel
 		want = append(want, r.Outs...)
+		perDoc = append(perDoc, len(r.Outs))
 	}
 	c.Validated()
 	if err != nil {
@@ -61,22 +63,29 @@ func c11Check(c *core.Ctx, oracle string, docs []any) {
 	if want == nil {
 		want = []any{}
 	}
-	if nested {
-		// relative order of a selection and a selected descendant is unspecified: multiset
-		if multiset(outs) != multiset(want) {
+	// The statement promises "a fixed order" without saying which: the outputs of one document
+	// are compared as a multiset (that the order is the same on every run is C09's business);
+	// the documents of a stream keep their order, so the flat list is cut at the model's counts.
+	_ = nested
+	if len(outs) != len(want) {
+		c.Outcome("WRONG-OUTPUTS")
+		c.Fail(oracle, "wrong-output-count", wit, map[string]any{"got": outs, "want": want})
+		return
+	}
+	off := 0
+	for _, n := range perDoc {
+		if multiset(outs[off:off+n]) != multiset(want[off:off+n]) {
 			c.Outcome("WRONG-OUTPUTS")
-			c.Fail(oracle, "wrong-output-multiset", wit, map[string]any{"got": outs, "want": want})
+			c.Fail(oracle, "wrong-outputs", wit, map[string]any{"got": outs, "want": want})
 			return
 		}
-		c.Outcome("ok-multiset")
-		return
+		off += n
 	}
-	if !core.Equal(outs, want) {
-		c.Outcome("WRONG-OUTPUTS")
-		c.Fail(oracle, "wrong-outputs", wit, map[string]any{"got": outs, "want": want})
-		return
+	if core.Equal(outs, want) {
+		c.Outcome("ok")
+	} else {
+		c.Outcome("ok-other-order")
 	}
-	c.Outcome("ok")
 }
 
 func multiset(l []any) string {
